@@ -43,6 +43,10 @@ for cid in [prop] + [c for c in extra if c != prop]:
     clean[cid] = r.returncode
     assert r.returncode == 0, 'check %s is not silent on the unchanged tree (exit %d)' % (cid, r.returncode)
 results = {}
+# runs against a seeded tree must not leave their evidence behind: evidence/ describes the unchanged tree
+evbak = '/tmp/seed_evidence_bak_%s' % sid
+shutil.rmtree(evbak, ignore_errors=True)
+shutil.copytree('/verif/evidence', evbak)
 sh('git -C /repo apply %s/patch.diff' % dst)
 try:
     for cid in [prop] + [c for c in extra if c != prop]:
@@ -54,6 +58,9 @@ try:
         print('  %s: exit %d, %d VIOLATION lines %s' % (cid, r.returncode, len(viol), detail[:1]))
 finally:
     sh('git -C /repo checkout -- .')
+    shutil.rmtree('/verif/evidence', ignore_errors=True)
+    shutil.copytree(evbak, '/verif/evidence')
+    shutil.rmtree(evbak, ignore_errors=True)
 meta = {'seed': sid, 'breaks_property': prop, 'written_by': 'independent sub-agent given only the property text and a scratch worktree',
         'needs_to_manifest': open(os.path.join(dst, 'NOTES.md')).read()[:1500],
         'confirmed': {'patch_applies_to_repo_head': True, 'demo_exit_without_change': r0.returncode, 'demo_exit_with_change': r1.returncode,
